@@ -182,7 +182,7 @@ def gen_case(rng, tier):
     K = rng.randint(2, 4)
     ops = []
     specs = []
-    for _ in range(rng.randint(6, 20)):
+    for _ in range(rng.randint(6, 20 if tier == "quick" else 45)):
         k = rng.randrange(K)
         if specs and rng.random() < 0.2:
             spec = copy.deepcopy(rng.choice(specs))          # the same call again, later, possibly by another client
